@@ -603,6 +603,45 @@ def rule_string_kind(F, R):
     R.floor("R-C19-8", n, 6, "parsed values handed to update() in parameter_t::operator=(string)")
 
 
+def rule_read_kind(F, R, rule="R-C19-9", floor=1):
+    """a parameter registered as a real number (make_scalar / make_scalar_pair) is read back as a real number: parameter_t::value<T>() merely
+    static_casts the stored value, so `value<int64_t>()` on a real-valued parameter silently truncates it (an initial radius of 1.9 becomes
+    1, 0.5 becomes 0). Registrations and reads are matched by the last string literal of their name expression, within the analysed units;
+    reads whose registration is not in view are not judged."""
+    kinds = {}
+    for f in F.functions.values():
+        if f.body is None and not f.inits:
+            continue
+        for c in f.calls(lambda c: re.fullmatch(r"nano::parameter_t::make_(scalar|integer|scalar_pair|integer_pair|enum)", callee(c)) is not None):
+            lits = [y["v"] for y in walk(args(c)[0]) if y["k"] == "str"] if args(c) else []
+            if lits:
+                kinds.setdefault(lits[-1].split("::")[-1] if lits[-1].startswith("::") else lits[-1], set()).add(callee(c).split("make_")[-1])
+    n = 0
+    for f in F.functions.values():
+        if f.body is None or f.relfile.startswith("/"):
+            continue
+        for c in f.calls(lambda c: callee(c) in ("nano::parameter_t::value", "nano::parameter_t::value_pair") and c.get("targs")):
+            o_ = skip(obj(c))
+            if not (o_["k"] == "call" and callee(o_).endswith("::parameter")):
+                continue
+            lits = [y["v"] for y in walk(o_) if y["k"] == "str"]
+            if not lits:
+                continue
+            key = lits[-1]
+            ks = kinds.get(key) or kinds.get(key.split("::")[-1]) or next((v for k_, v in kinds.items() if k_.endswith(key) or key.endswith(k_)), None)
+            if not ks or len(ks) != 1:
+                continue
+            kind = next(iter(ks))
+            if kind not in ("scalar", "scalar_pair"):
+                continue
+            n += 1
+            t = c["targs"][0]
+            R.check(t in ("double", "float", "long double"), rule, "%s read of %s@%d" % (f.name, key, c["l"]), f.loc(c), "a real-valued parameter is read as a real number",
+                    "`%s` is registered with make_%s but read with value<%s>(): the stored real value is truncated to an integer (e.g. a radius of 1.9 becomes 1, one below 1 "
+                    "becomes 0)" % (key, kind, t))
+    R.floor(rule, n, floor, "reads of real-valued parameters whose registration is in view")
+
+
 def run(ctx):
     R = ctx.report
     tus = ctx.all_tus() if ctx.thorough else QUICK_TUS
